@@ -33,6 +33,7 @@ class XSpec:
     def __init__(self, string: str) -> None:
         self._spec = string
         self.env = {}
+        seen = set()
         for keyvalue in string.split("//"):
             i = keyvalue.find("=")
             value: str | bool
@@ -42,8 +43,9 @@ class XSpec:
                 key, value = keyvalue[:i], keyvalue[i + 1 :]
             if key[0] == "_":
                 raise AttributeError("%r not a valid XSpec key" % key)
-            if key in self.__dict__:
+            if key in self.__dict__ or key in seen:
                 raise ValueError(f"duplicate key: {key!r} in {string!r}")
+            seen.add(key)
             if key.startswith("env:"):
                 self.env[key[4:]] = value
             else:
